@@ -1,10 +1,69 @@
-(* Props/C14.v — integer and rational conversions (placeholder until the
-   conversion theorems are proved; see the list at the end). *)
-From Coq Require Import ZArith.
-From Dec Require Import L3.Decimal L3.Convert.
+(* Props/C14.v — integer and rational conversions are exact, with documented
+   saturation.  Statements only.  `OpPost p m s v res` (see Props/C01.v): the
+   call returned a canonical receiver of precision p and mode m holding the
+   exact value (sign s, magnitude v) rounded once, +-0 / +-Inf outside the
+   exponent range.  `scaled a e` = a * 10^e as a rational. *)
+From Coq Require Import ZArith QArith.
+From Dec Require Import Base.QPow L3.Decimal L3.CmpProofs L3.Round L3.Arith L3.Convert Spec.Rounding L3.ArithProofs L3.ConvertProofs.
 Open Scope Z_scope.
 
-(* non-vacuity / regression examples evaluated by the kernel *)
+Theorem C14_setint64 : forall z x, MinInt64 <= x <= MaxInt64 -> x <> 0 -> 0 <= prec z <= MaxPrec ->
+  OpPost (if prec z =? 0 then DefaultDecimalPrec else prec z) (dmode z) (x <? 0) (scaled (Z.abs x) 0) (SetInt64 z x).
+Proof. exact SetInt64_correct. Qed.
+Print Assumptions C14_setint64.
+
+Theorem C14_setuint64 : forall z x, 0 < x <= MaxUint64 -> 0 <= prec z <= MaxPrec ->
+  OpPost (if prec z =? 0 then DefaultDecimalPrec else prec z) (dmode z) false (scaled x 0) (SetUint64 z x).
+Proof. exact SetUint64_correct. Qed.
+Print Assumptions C14_setuint64.
+
+(* NewDecimal(x, e) for EVERY integer exponent e: x * 10^e rounded to 34 digits,
+   saturating to +-0 / +-Inf (result_spec) when it leaves the exponent range *)
+Theorem C14_newdecimal : forall x e, MinInt64 <= x <= MaxInt64 -> x <> 0 ->
+  OpPost DefaultDecimalPrec ToNearestEven (x <? 0) (scaled (Z.abs x) e) (NewDecimal x e).
+Proof. exact NewDecimal_correct. Qed.
+Print Assumptions C14_newdecimal.
+
+Theorem C14_set_zero : forall z ng e, 0 <= prec z <= MaxPrec ->
+  exists z', setBits64 z ng 0 e = OkR z' /\ dform z' = Fzero /\ neg z' = ng /\ acc z' = Exact /\
+    prec z' = (if prec z =? 0 then DefaultDecimalPrec else prec z) /\ dmode z' = dmode z /\ WF z'.
+Proof. exact setBits64_zero. Qed.
+Print Assumptions C14_set_zero.
+
+(* SetInt: precision 0 becomes max(number of digits, 34), so integers are stored exactly *)
+Theorem C14_setint : forall z x D,
+  x <> 0 -> Z.abs x < 10 ^ D -> 0 <= D -> D + 19 < 4294967296 - 18 -> 0 <= prec z <= MaxPrec ->
+  OpPost (setint_prec z x) (dmode z) (x <? 0) (scaled (Z.abs x) 0) (SetInt z x).
+Proof. exact SetInt_correct. Qed.
+Print Assumptions C14_setint.
+
+(* Int: truncation toward zero, Exact iff nothing was discarded, else the sign of the discarded part *)
+Theorem C14_int : forall x, WF x -> dform x = Ffinite -> 0 < exp x ->
+  exists t a, Int x = (Some t, a) /\
+    (scaled (Z.abs t) 0 <= mag x)%Q /\ (mag x < scaled (Z.abs t + 1) 0)%Q /\
+    (t < 0 -> neg x = true) /\ (0 < t -> neg x = false) /\
+    (a = Exact <-> (mag x == scaled (Z.abs t) 0)%Q) /\ (a <> Exact -> a = makeAcc (neg x)).
+Proof. exact Int_correct. Qed.
+Print Assumptions C14_int.
+
+(* Rat returns exactly x, in lowest terms *)
+Theorem C14_rat : forall x, WF x -> dform x = Ffinite ->
+  exists n d, Rat x = (Some (n, d), Exact) /\ 0 < d /\ Z.gcd n d = 1 /\ (inject_Z n / inject_Z d == sval x)%Q.
+Proof. exact Rat_exact. Qed.
+Print Assumptions C14_rat.
+
+(* MinPrec is the number of significant digits: 10^k divides the mantissa integer iff
+   k <= (digits held) - MinPrec; and 1 <= MinPrec <= Prec *)
+Theorem C14_minprec : forall x, WFfin x -> dform x = Ffinite ->
+  1 <= MinPrec x <= mdigits (mant x) /\ MinPrec x <= prec x /\
+  forall k, 0 <= k -> (val (mant x) mod 10 ^ k = 0 <-> k <= mdigits (mant x) - MinPrec x).
+Proof. exact MinPrec_spec. Qed.
+Print Assumptions C14_minprec.
+
+(* Not yet closed as theorems (decided by the correspondence run and the independent
+   oracle of harness/props/C14.py): C14_int64 / C14_uint64 (saturation at the type's
+   bounds), C14_isint, C14_setrat. *)
+
 Example C14_examples :
   let x := mkDec [9223372036854775807] 19 19 ToNearestEven Exact Ffinite false in   (* 2^63-1 *)
   let y := mkDec [5000000000000000000; 9223372036854775807] 19 38 ToNearestEven Exact Ffinite true in (* -(2^63-1).5 *)
